@@ -445,6 +445,64 @@ func runC16(c *core.Ctx) {
 		}
 	}
 
+	c.Rule("C16.siblingselect", "the per-kind steps of the transforming walk select children the same way: the functions of the walk's recursion that iterate a node's children (one for lists, one for maps) decide whether a child is transformed or copied through the same helpers of the package - a step that replaces the membership test over the selector's interests by something of its own (a cursor that assumes ascending order) transforms a different set of positions than the walk visits", 1)
+	{
+		type step struct {
+			fn      *ssa.Function
+			helpers string
+		}
+		var steps []step
+		for _, tf := range tfns {
+			fn := tf.fn
+			if !tr.underWalkAPI(fn) {
+				continue
+			}
+			iterates := false
+			for _, ci := range core.Calls(fn) {
+				if cc := ci.Common(); cc.IsInvoke() && cc.Method.Name() == "Next" {
+					iterates = true
+				}
+			}
+			if !iterates {
+				continue
+			}
+			used := map[string]bool{}
+			// the package-level helpers its branch conditions are computed with (a short-circuit condition has no single
+			// dominating edge, so every condition of the function counts)
+			for _, b := range fn.Blocks {
+				ifi := core.BlockIf(b)
+				if ifi == nil {
+					continue
+				}
+				for w := range core.BackSlice(ifi.Cond, core.SliceOpts{Local: true}) {
+					cl, ok := w.(*ssa.Call)
+					if !ok {
+						continue
+					}
+					if cal := cl.Call.StaticCallee(); cal != nil && core.FuncPkg(cal) == core.FuncPkg(fn) && !tr.recursive(cal) && cal.Signature.Recv() == nil {
+						used[cal.Name()] = true
+					}
+				}
+			}
+			steps = append(steps, step{fn, strings.Join(core.SortedKeys(used), "+")})
+		}
+		if len(steps) >= 2 {
+			agree := true
+			for _, st := range steps[1:] {
+				if st.helpers != steps[0].helpers {
+					agree = false
+				}
+			}
+			desc := ""
+			for _, st := range steps {
+				desc += st.fn.Name() + ": {" + st.helpers + "} "
+			}
+			c.Check(agree, rel+"#transform-steps-select-alike", p.Pos(steps[0].fn.Pos()), "the child-iterating steps decide through the same helpers ("+steps[0].helpers+")", "the child-iterating steps of the transforming walk decide which children to transform through different means - "+desc+"- so for some selectors (interests not in ascending order) the list step and the map step, and the transforming walk and the visiting walk, select different children")
+		} else {
+			c.Info(rel+"#transform-steps-select-alike", "-", "fewer than two child-iterating steps: nothing to compare")
+		}
+	}
+
 	c.Rule("C16.protocol", "the transform functions keep to the map-assembler protocol on every path: after a key was assigned through AssembleKey the next call on that assembler is AssembleValue (C12.client restricted to package traversal)", 4)
 	sub := &core.Ctx{P: p, Prop: "C16"}
 	sub.Rule("C12.client", "", 0)
